@@ -6,6 +6,7 @@ import (
 	"sort"
 	"strings"
 	"sync"
+	"sync/atomic"
 	"testing/synctest"
 	"time"
 )
@@ -178,8 +179,18 @@ func (s *Sim) RecAs(actor, kind, detail string, data any) {
 
 // Quiesce waits until every goroutine of the bubble is durably blocked,
 // flushes the window's events and returns the parked actors sorted by name.
+// heartbeat is bumped every time the bubble reaches quiescence; the worker's
+// wall-clock watchdog (outside the bubble) reads it.
+var heartbeat atomic.Int64
+
+// preWait is bumped by the scheduler right before it waits for quiescence:
+// everything it wrote so far happens-before a watchdog that loads it.
+var preWait atomic.Int64
+
 func (s *Sim) Quiesce() []*parked {
+	preWait.Add(1)
 	synctest.Wait()
+	heartbeat.Add(1)
 	s.mu.Lock()
 	cur := s.cur
 	s.cur = nil
